@@ -440,6 +440,17 @@ func plainPool(e *emitter) [][]byte {
 	for _, t := range []uint8{nasMessage.ServiceTypeSignalling, nasMessage.ServiceTypeData, nasMessage.ServiceTypeMobileTerminatedServices} {
 		add(nasTestpacket.GetServiceRequest(t))
 	}
+	// REGISTRATION REQUESTs (initial, mobility and periodic updating; with a SUCI and with a 5G-GUTI; with and without the
+	// UE security capability / 5GMM capability): a registered UE sends them integrity protected AND ciphered
+	suci := nasType.MobileIdentity5GS{Len: 12, Buffer: []uint8{0x01, 0x02, 0xf8, 0x39, 0xf0, 0xff, 0x00, 0x00, 0x00, 0x00, 0x00, 0x10}}
+	secCap := &nasType.UESecurityCapability{Iei: nasMessage.RegistrationRequestUESecurityCapabilityType, Len: 2, Buffer: []uint8{0xe0, 0xe0}}
+	cap5 := &nasType.Capability5GMM{Iei: nasMessage.RegistrationRequestCapability5GMMType, Len: 1, Octet: [13]uint8{0x07}}
+	for _, rt := range []uint8{nasMessage.RegistrationType5GSInitialRegistration, nasMessage.RegistrationType5GSMobilityRegistrationUpdating,
+		nasMessage.RegistrationType5GSPeriodicRegistrationUpdating} {
+		add(nasTestpacket.GetRegistrationRequest(rt, suci, nil, secCap, nil, nil, nil))
+		add(nasTestpacket.GetRegistrationRequest(rt, guti, nil, secCap, cap5, nil, nil))
+		add(nasTestpacket.GetRegistrationRequest(rt, guti, nil, nil, nil, nil, nil))
+	}
 	add(nasTestpacket.GetDeregistrationRequest(nasMessage.AccessType3GPP, 0, 0x04, guti))
 	add(nasTestpacket.GetDeregistrationRequest(nasMessage.AccessType3GPP, 1, 0x01, guti))
 	for _, id := range []uint8{1, 5, 10, 15} {
